@@ -373,14 +373,12 @@ func formatType(tr *tokenReader) []byte {
 		typeBytes = append(typeBytes, tr.Token().concrete...)
 	}
 
-	// ...[]?
-	tr.Next()
-	if tr.Token().kind == tokenKindOpenSquare {
+	// ...[]*
+	for tr.Next() && tr.Token().kind == tokenKindOpenSquare {
 		tr.Next()
 		typeBytes = append(typeBytes, []byte("[]")...)
-	} else {
-		tr.UnNext()
 	}
+	tr.UnNext()
 
 	return typeBytes
 }
